@@ -25,9 +25,17 @@ What is proved here, for ALL networks / spaces / states (no bounds):
 * source ties (`by decide` on regenerated text): rate-constant dimensions `(3n−3, −1, 1−n)`, the formulas of
   compute_reaction_rates / compute_diffusion_rates / the accumulation statements, get_value_in_env order, loop orders.
 
-NOT proved (covered by the correspondence + oracle of harness/props/c01.py on every run): `kinetics_eq_rate` /
-`dxdtf_eq_rate` in full (the Python neighbour enumeration with its `w > 1` guards against the Spec's six-neighbourhood;
-the exception-threading folds), hence `three_agree` as a single theorem; float rounding.
+Round 2 — the Python side:
+* `kinetics_eq_rate_grid` (every valid grid), `kinetics_eq_rate_graph_simple` (graphs without parallel edges / self-loops),
+  `kinetics_eq_rate_graph` (any graph, over the interfaces the Python loop visits): whenever `compute_dspeciesdt` returns,
+  the SI value it returns IS the rate law (partial correctness: the functions' error branches — dimension mismatch of a
+  hand-made state array, zero volume, zero distance — are modelled and simply excluded by "returns");
+* `kinetics_euler_agree_grid` / `_graph`: Python kinetics value = rate = Euler derivative of the marshalled system
+  (with `dxdtf_eq_rate` of Props/C01Dxdtf.lean, for size-1 systems, this is `three_agree`);
+NOT proved: totality of the kinetics functions on valid systems (that they do not raise) and the dimension of the final sum
+as one theorem (`pyRateLoop_dim` + `rate_dim_amount_per_time` give the reaction terms); the step from "tables agree
+pointwise" (`marshal_read_*`, `split_layout`) to `eulerDxdt` on the decoded arrays (covered by ops `marshal` + `euler_step`);
+float rounding.
 -/
 import Strengths.Proofs.Kinetics
 import Strengths.Proofs.Units
@@ -35,6 +43,7 @@ import Strengths.Proofs.Grid
 import Strengths.Proofs.GridRate
 import Strengths.Proofs.KineticsPy
 import Strengths.Proofs.KineticsGrid
+import Strengths.Proofs.KineticsGraph
 
 namespace Strengths.C01
 open Strengths Strengths.Gen Strengths.Spec
@@ -164,6 +173,15 @@ theorem kinetics_eq_rate_graph (sys : PySys) (nodes : List PyNode) (edges : List
     (hperm : (pyFaces nodes.length edges i).Perm (graphFaces (edgesSI edges) i)) :
     q.si = rate (physOfPy sys (fun k => graphFaces (edgesSI edges) k)) (stOf sys.space.size x) s i :=
   kinetics_value_graph sys nodes edges hsp s i x q h hperm
+
+/-- **kinetics_eq_rate, graphs without parallel edges and self-loops** (`SimpleEdges`: the statement's own restriction for the
+Python graph functions): whenever `compute_dspeciesdt(apply_chemostats=False)` returns, its SI value IS the rate law over the
+Spec's interfaces -/
+theorem kinetics_eq_rate_graph_simple (sys : PySys) (nodes : List PyNode) (edges : List PyEdge) (hsp : sys.space = .graph nodes edges)
+    (hs : SimpleEdges nodes.length edges) (s i : Nat) (hi : i < nodes.length) (x : PyState) (q : Q)
+    (h : pyDspeciesdt sys s i x false = .ok q) :
+    q.si = rate (physOfPy sys (fun k => graphFaces (edgesSI edges) k)) (stOf sys.space.size x) s i :=
+  kinetics_value_graph sys nodes edges hsp s i x q h (simple_graph_faces nodes.length edges hs i hi)
 
 /-- the state of the engine model that corresponds to the species-major array of the Python side -/
 def stateOf (n : Nat) (x : PyState) : State := ⟨stOf n x⟩
